@@ -20,6 +20,32 @@ def cases(rng, tier, shard, nshards):
                             fanout=False, tags=True)
 
 
+def registry_coherent(ctx, g, when):
+    """every identifier which a line of the Gfa carries is listed in names and looked up to that line."""
+    try:
+        lines = [l for l in g.lines if not l.virtual and l.record_type != "H"]
+        names = set(n for n in g.names if isinstance(n, str))
+    except Exception:
+        return
+    for l in lines:
+        try:
+            n = l.name
+        except Exception:
+            continue
+        if not isinstance(n, str):
+            continue
+        ctx.count("carried_identifiers_looked_up")
+        r = call(ctx, "line(name)", g.line, n)
+        if not r.ok or r.value is not l:
+            ctx.violation("carried-identifier-not-looked-up/%s/%s" % (when, l.record_type),
+                          "%r carries the identifier %r; Gfa.line(%r) gives %r" % (str(l), n, n, str(r.value) if r.ok else r.cls()))
+            return
+        if n not in names:
+            ctx.violation("carried-identifier-not-in-names/%s/%s" % (when, l.record_type),
+                          "%r carries the identifier %r; names = %r" % (str(l), n, sorted(names)))
+            return
+
+
 def run(case, ctx):
     before = hooks.counts().get("unique_names_evals", 0)
     def at_end(g, model):
@@ -37,7 +63,16 @@ def run(case, ctx):
                               "unused_name() returned %r; the document carries %r and mentions %r"
                               % (r.value, sorted(model.names()), sorted(mentioned)))
                 return
-    shape = H.run_history(case, ctx, compare_every=True, at_end=at_end)
+    def at_end_all(g, model):
+        at_end(g, model)
+        registry_coherent(ctx, g, "at-end")
+        if case["version"] == "gfa1" and len(case["steps"]) % 2 == 0:
+            # a conversion gives the unnamed links and containments an identifier (documented): the
+            # identifiers the lines then carry are looked up to those lines, too
+            c = call(ctx, "to_gfa2_s", g.to_gfa2_s)
+            ctx.count("conversions_then_lookups")
+            registry_coherent(ctx, g, "after-conversion" if c.ok else "after-refused-conversion")
+    shape = H.run_history(case, ctx, compare_every=True, at_end=at_end_all)
     ctx.count("invariant_evaluations", hooks.counts().get("unique_names_evals", 0) - before)
     if any(s.startswith("F:duplicate-add") or s.startswith("F:rename-to-used") or s.startswith("rename")
            for s in shape):
